@@ -110,40 +110,81 @@ Proof.
     apply IH; assumption.
 Qed.
 
-Lemma canon_int_value v : canon_int v = true ->
-  exists n, nat_value v = Some n /\ n < 2147483648 /\ fast_atoi_i32 v = Z.of_N n /\
-            int_value v = Some (Z.of_N n) /\ all_digits v /\ v <> [].
+Lemma atoi_digits_neg (m : Z) : (0 < m)%Z -> forall l acc n, dec_digits l acc = Some n ->
+  fold_left (atoi_step_neg m) l ((- Z.of_N acc) mod m)%Z = ((- Z.of_N n) mod m)%Z.
 Proof.
-  unfold canon_int. destruct (nat_value v) as [n|] eqn:E; [|discriminate]. intros H. apply N.ltb_lt in H.
-  exists n. split; [reflexivity|]. split; [assumption|].
-  assert (Hne : v <> []) by (destruct v; [discriminate | discriminate]).
-  assert (Hd : dec_digits v 0 = Some n) by (destruct v; [congruence | exact E]).
-  pose proof (dec_digits_all _ _ _ Hd) as Hall.
-  split.
-  - unfold fast_atoi_i32, fast_atoi_mod. rewrite cstr_nonzero by (apply digits_nonzero; assumption).
-    pose proof (atoi_digits two32 v 0 n Hd ltac:(unfold two32; lia)) as HA.
+  intros Hm. induction l as [|x r IH]; intros acc n H; cbn [dec_digits fold_left] in *.
+  - injection H as <-. reflexivity.
+  - destruct (is_digit x) eqn:E; [|discriminate]. apply digit_range in E.
+    rewrite <- (IH _ _ H). f_equal. unfold atoi_step_neg, schar.
+    destruct (x <? 128) eqn:E2; [|apply N.ltb_ge in E2; lia].
+    replace (- Z.of_N (acc * 10 + (x - 48)))%Z with ((- Z.of_N acc) * 10 - (Z.of_N x - 48))%Z by lia.
+    rewrite <- (Zminus_mod_idemp_l ((- Z.of_N acc) * 10)), <- (Zmult_mod_idemp_l (- Z.of_N acc)), Zminus_mod_idemp_l.
+    reflexivity.
+Qed.
+
+Lemma int_value_digits v n : v <> [] -> dec_digits v 0 = Some n -> int_value v = Some (Z.of_N n).
+Proof.
+  intros Hne Hd. pose proof (dec_digits_all _ _ _ Hd) as Hall.
+  unfold int_value. destruct v as [|x r]; [congruence|].
+  inversion Hall as [|? ? Hx _]; subst. apply digit_range in Hx.
+  assert (E : nat_value (x :: r) = Some n) by exact Hd.
+  destruct (N.eq_dec x 45) as [->|Hne45]; [lia|].
+  rewrite E. destruct x as [|p]; [reflexivity|]. do 6 (destruct p as [p|p|]; try reflexivity). congruence.
+Qed.
+
+(* a decimal int text: optional '-', digits, within the int range: fast_atoi<int> reads its value *)
+Lemma canon_int_value v : canon_int v = true ->
+  exists z, int_value v = Some z /\ fast_atoi_i32 v = z /\ Forall (fun b => b <> 0) v.
+Proof.
+  unfold canon_int. destruct (int_value v) as [z|] eqn:Ei; [|discriminate]. intros H.
+  apply andb_true_iff in H. destruct H as [Hlo Hhi]. apply Z.leb_le in Hlo. apply Z.ltb_lt in Hhi.
+  exists z. split; [reflexivity|].
+  destruct v as [|x r]; [cbn in Ei; discriminate|].
+  destruct (N.eq_dec x 45) as [->|Hne45].
+  - (* negative *)
+    cbn [int_value] in Ei. destruct (nat_value r) as [n|] eqn:En; [|discriminate]. injection Ei as <-.
+    assert (Hr : r <> []) by (destruct r; [discriminate | discriminate]).
+    assert (Hd : dec_digits r 0 = Some n) by (destruct r; [congruence | exact En]).
+    pose proof (dec_digits_all _ _ _ Hd) as Hall.
+    assert (Hnz : Forall (fun b => b <> 0) (45 :: r)) by (constructor; [lia | apply digits_nonzero; assumption]).
+    split; [|assumption].
+    unfold fast_atoi_i32. rewrite (cstr_nonzero _ Hnz). change (45 =? 45) with true. cbn iota.
+    pose proof (atoi_digits_neg two32 ltac:(unfold two32; lia) r 0 n Hd) as HA.
+    change ((- Z.of_N 0) mod two32)%Z with 0%Z in HA. rewrite HA.
+    unfold to_i32, two32, two31. rewrite Z.mod_mod by lia.
+    destruct (Z.eq_dec (Z.of_N n) 0) as [E0|E0].
+    + rewrite E0. reflexivity.
+    + rewrite Z_mod_nz_opp_full by (rewrite Z.mod_small; lia). rewrite Z.mod_small by lia.
+      destruct (4294967296 - Z.of_N n <? 2147483648)%Z eqn:E2; [apply Z.ltb_lt in E2; lia | lia].
+  - (* non-negative *)
+    assert (En : exists n, nat_value (x :: r) = Some n /\ z = Z.of_N n).
+    { unfold int_value in Ei. destruct (nat_value (x :: r)) as [n|] eqn:En.
+      - exists n. split; [reflexivity|].
+        destruct x as [|p]; [congruence|]. do 6 (destruct p as [p|p|]; try congruence).
+      - exfalso. destruct x as [|p]; [discriminate|]. do 6 (destruct p as [p|p|]; try discriminate). congruence. }
+    destruct En as (n & En & ->).
+    assert (Hd : dec_digits (x :: r) 0 = Some n) by exact En.
+    pose proof (dec_digits_all _ _ _ Hd) as Hall.
+    pose proof (digits_nonzero _ Hall) as Hnz. split; [|assumption].
+    unfold fast_atoi_i32. rewrite (cstr_nonzero _ Hnz).
+    assert (E45 : (x =? 45) = false) by (apply N.eqb_neq; assumption). rewrite E45.
+    pose proof (atoi_digits two32 (x :: r) 0 n Hd ltac:(unfold two32; lia)) as HA.
     change (Z.of_N 0) with 0%Z in HA. rewrite HA.
     unfold to_i32, two32, two31. rewrite Z.mod_small by lia.
     destruct (Z.of_N n <? 2147483648)%Z eqn:E2; [reflexivity | apply Z.ltb_ge in E2; lia].
-  - split; [|split; assumption].
-    unfold int_value. destruct v as [|x r]; [congruence|].
-    inversion Hall as [|? ? Hx _]; subst. apply digit_range in Hx.
-    destruct (N.eq_dec x 45) as [->|Hne45]; [lia|].
-    assert (Hm : match x with 45 => false | _ => true end = true).
-    { destruct x as [|p]; [reflexivity|]. do 6 (destruct p as [p|p|]; try reflexivity). congruence. }
-    rewrite E. destruct x as [|p]; [reflexivity|]. do 6 (destruct p as [p|p|]; try reflexivity). congruence.
+Qed.
+
+Lemma count_agree v : canon_int v = true -> has_group_count (cstr v) = count_pos v.
+Proof.
+  intros H. destruct (canon_int_value v H) as (z & Hi & Ha & Hnz).
+  rewrite (cstr_nonzero _ Hnz). unfold has_group_count, count_pos. rewrite Ha, Hi. reflexivity.
 Qed.
 
 Lemma hgc_int c f v ty : find_be (c_fields c) f = Some ty -> is_int_type ty = true ->
   has_group_count_c c f v = has_group_count v.
 Proof. intros H1 H2. unfold has_group_count_c. rewrite H1, H2. reflexivity. Qed.
 
-Lemma count_agree v : canon_int v = true -> has_group_count (cstr v) = count_pos v.
-Proof.
-  intros H. destruct (canon_int_value v H) as (n & _ & _ & Ha & Hi & Hall & _).
-  rewrite cstr_nonzero by (apply digits_nonzero; assumption).
-  unfold has_group_count, count_pos. rewrite Ha, Hi. reflexivity.
-Qed.
 
 (* ------------------------------------------------------------------ seen sets and present bits *)
 Definition seen_rel (fp : list trait) (seen : list N) : Prop :=
@@ -297,7 +338,7 @@ Proof. unfold ftype. intros ->. reflexivity. Qed.
 (* ------------------------------------------------------------------ group elements in lockstep *)
 Definition elem_rel (sg : gmeta) (grp : mbase) (seen : list N) (pos : N) : Prop :=
   same_table (mb_fp grp) (g_traits sg) /\ mb_subs grp = g_subs sg /\
-  seen_rel (mb_fp grp) seen /\ (pos = 0 <-> seen = []).
+  seen_rel (mb_fp grp) seen /\ (pos = 0 <-> seen = []) /\ (seen <> [] -> mb_fields grp <> []).
 
 Definition stopw (seen : list N) (rest : list tok) : stop :=
   match rest with [] => SEnd | t :: _ => if memN (k_tag t) seen then SDup else SForeign end.
@@ -306,13 +347,15 @@ Lemma elem_rel_add sg grp seen pos f tr v :
   elem_rel sg grp seen pos -> find_trait (mb_fp grp) f = Some tr ->
   elem_rel sg (mark_present (add_field_decoder grp f (pos + 1) v) f) (f :: seen) (pos + 1).
 Proof.
-  intros (H1 & H2 & H3 & H4) Hf. unfold elem_rel. rewrite fp_mark, fp_afd, subs_mark, subs_afd.
+  intros (H1 & H2 & H3 & H4 & _) Hf. unfold elem_rel. rewrite fp_mark, fp_afd, subs_mark, subs_afd, fields_mark, fields_afd.
   split; [apply same_table_mark; assumption|]. split; [assumption|].
-  split; [eapply seen_rel_mark; eassumption|]. split; [lia | discriminate].
+  split; [eapply seen_rel_mark; eassumption|]. split; [split; [lia | discriminate]|].
+  intros _. apply map_insert_nonempty.
 Qed.
 Lemma elem_rel_same sg m m' seen pos :
-  mb_fp m' = mb_fp m -> mb_subs m' = mb_subs m -> elem_rel sg m seen pos -> elem_rel sg m' seen pos.
-Proof. unfold elem_rel. intros -> ->. trivial. Qed.
+  mb_fp m' = mb_fp m -> mb_subs m' = mb_subs m -> mb_fields m' = mb_fields m ->
+  elem_rel sg m seen pos -> elem_rel sg m' seen pos.
+Proof. unfold elem_rel. intros -> -> ->. trivial. Qed.
 
 Lemma mflat_add_tok grp t p :
   Permutation (mflat (mark_present (add_field_decoder grp (k_tag t) p (k_val t)) (k_tag t)))
@@ -337,7 +380,8 @@ Definition stmtEL (mf : nat) : Prop := forall sg grp pos off ts tail seen sf,
       exists grp' pos' consumed, ts = consumed ++ rest /\
         DGE mf grp pos off = Ok (grp', pos', off + lenN (ser consumed), stopw seen' rest) /\
         elem_rel sg grp' seen' pos' /\ (consumed = [] -> seen' = seen) /\
-        Permutation (mflat grp') (mflat grp ++ map tok_pair consumed)
+        Permutation (mflat grp') (mflat grp ++ map tok_pair consumed) /\
+        (seen = [] -> ts <> [] -> consumed <> []) /\ (consumed <> [] -> seen' <> [])
   end.
 
 Definition stmtGL (mf : nat) : Prop := forall gm els off ts tail sf,
@@ -361,7 +405,7 @@ Definition stmtDL (mf : nat) : Prop := forall m f sg off ts tail sf,
   | Some rest =>
       exists m' consumed, ts = consumed ++ rest /\
         DGG mf m f off = Ok (m', off + lenN (ser consumed)) /\
-        mb_fp m' = mb_fp m /\ mb_pos m' = mb_pos m /\ mb_subs m' = mb_subs m /\
+        mb_fp m' = mb_fp m /\ mb_pos m' = mb_pos m /\ mb_subs m' = mb_subs m /\ mb_fields m' = mb_fields m /\
         Permutation (mflat m') (mflat m ++ map tok_pair consumed)
   end.
 
@@ -376,7 +420,8 @@ Proof.
   { (* end of the decodable range *)
     rewrite (at_nil _ _ _ _ Hat) in *. rewrite N.ltb_irrefl in *. cbn [sp_fields].
     exists grp, pos, []. cbn [app map]. rewrite lenN_ser_nil, N.add_0_r, app_nil_r.
-    split; [reflexivity|]. split; [reflexivity|]. split; [assumption|]. split; [reflexivity|]. reflexivity. }
+    split; [reflexivity|]. split; [reflexivity|]. split; [assumption|]. split; [reflexivity|]. split; [reflexivity|].
+    split; [intros _ H; congruence | intros H; congruence]. }
   destruct (toks_ok_cons _ _ _ Hok) as [Hokt Hokr].
   destruct (tok_ok_facts _ _ Hokt) as (Htag & Hval & Hint & _).
   destruct (at_cons _ _ _ _ _ _ Hat Htag Hval) as (Hlt & _ & Htok & Hat1).
@@ -385,7 +430,7 @@ Proof.
   destruct (val_ok_facts _ Hval) as (_ & _ & Hnz & _).
   rewrite (cstr_nonzero _ Hnz) in *.
   cbn [sp_fields].
-  destruct Hrel as (Hst & Hsubs & Hseen & Hpos).
+  destruct Hrel as (Hst & Hsubs & Hseen & Hpos & Hflds).
   assert (Hrel : elem_rel sg grp seen pos) by (unfold elem_rel; auto).
   destruct (find_trait (mb_fp grp) (k_tag t)) as [tr|] eqn:Hf.
   2:{ (* foreign tag *)
@@ -398,13 +443,15 @@ Proof.
       { destruct (memN (k_tag t) (s0 :: seen0)) eqn:Em; [|reflexivity]. apply Hseen in Em.
         destruct Em as (x & Hx & _). congruence. }
       cbn [stopw]. rewrite Hm.
-      split; [reflexivity|]. split; [reflexivity|]. split; [assumption|]. split; [reflexivity|]. reflexivity. }
+      split; [reflexivity|]. split; [reflexivity|]. split; [assumption|]. split; [reflexivity|]. split; [reflexivity|].
+      split; [intros E0; discriminate E0 | intros H; congruence]. }
   destruct (same_table_find_some _ _ _ _ Hst Hf) as (tr' & Hf' & Hs). rewrite Hf'.
   rewrite (seen_present _ _ _ _ Hseen Hf) in *.
   destruct (memN (k_tag t) seen) eqn:Hm.
   { (* the tag starts the next element *)
     exists grp, pos, []. cbn [app map stopw]. rewrite lenN_ser_nil, N.add_0_r, app_nil_r, Hm.
-    split; [reflexivity|]. split; [reflexivity|]. split; [assumption|]. split; [reflexivity|]. reflexivity. }
+    split; [reflexivity|]. split; [reflexivity|]. split; [assumption|]. split; [reflexivity|]. split; [reflexivity|].
+    split; [intros E; rewrite E in Hm; discriminate | intros H; congruence]. }
   destruct (wf_trait2 _ _ _ _ _ Hwf Hf') as (Hbe & Hgrp & Helem). destruct (Helem eq_refl) as (Hhp & _ & _).
   assert (Hgp : getPos tr = t_pos tr').
   { unfold getPos. rewrite (haspos_strip _ _ Hs), Hhp. apply pos_strip. assumption. }
@@ -429,7 +476,8 @@ Proof.
         exists grp' pos' consumed, t :: r = consumed ++ rest /\
           DGE mf g' (pos + 1) (off1 + lenN (ser cons1)) = Ok (grp', pos', off + lenN (ser consumed), stopw seen' rest) /\
           elem_rel sg grp' seen' pos' /\ (consumed = [] -> seen' = seen) /\
-          Permutation (mflat grp') (mflat grp ++ map tok_pair consumed)
+          Permutation (mflat grp') (mflat grp ++ map tok_pair consumed) /\
+          (seen = [] -> t :: r <> [] -> consumed <> []) /\ (consumed <> [] -> seen' <> [])
     end).
   { intros g' cons1 r' Er Hrel' Hperm.
     subst r. destruct (toks_ok_app _ _ _ Hokr) as [_ Hokr'].
@@ -440,8 +488,8 @@ Proof.
     { cbn [length] in Hmf. rewrite app_length in Hmf. lia. }
     pose proof (IHE sg g' (pos + 1) (off1 + lenN (ser cons1)) r' tail (k_tag t :: seen) sf Hwf Hrel' Hokr' Hat' Hsf' Hmf') as HI.
     destruct (sp_fields sf sg true (k_tag t :: seen) r') as [|seen' rest]; [exact HI|].
-    destruct HI as (grp' & pos' & cons2 & Er' & Hres & Hrel'' & _ & Hperm2).
-    exists grp', pos', (t :: cons1 ++ cons2). split; [|split; [|split; [|split]]].
+    destruct HI as (grp' & pos' & cons2 & Er' & Hres & Hrel'' & Hc2 & Hperm2 & _ & Hs2).
+    exists grp', pos', (t :: cons1 ++ cons2). split; [|split; [|split; [|split; [|split; [|split]]]]].
     - subst r'. cbn [app]. rewrite <- app_assoc. reflexivity.
     - rewrite Hres. f_equal. f_equal. f_equal. unfold off1.
       rewrite ser_cons, ser_app, !lenN_app. lia.
@@ -449,7 +497,9 @@ Proof.
     - discriminate.
     - eapply perm_trans; [exact Hperm2|].
       eapply perm_trans; [apply Permutation_app_tail; exact Hperm|].
-      rewrite <- app_assoc. apply Permutation_app_head. cbn [map app]. rewrite map_app. reflexivity. }
+      rewrite <- app_assoc. apply Permutation_app_head. cbn [map app]. rewrite map_app. reflexivity.
+    - intros _ _. discriminate.
+    - intros _. destruct cons2 as [|x2 c2]; [rewrite (Hc2 eq_refl); discriminate | apply Hs2; discriminate]. }
   rewrite (group_strip _ _ Hs) in *.
   destruct (t_group tr') eqn:Hg; cbn [andb] in *.
   2:{ (* plain field *)
@@ -472,7 +522,7 @@ Proof.
   pose proof (IHD g1 (k_tag t) sg' off1 r tail sf Hsub1 Hwf' Hokr Hat1 Hsf1 Hnf1) as HD.
   destruct (sp_elems sf sg' r) as [r'|].
   2:{ destruct HD as (e & He). rewrite He. eauto. }
-  destruct HD as (g2 & cons1 & Er & Hres & E1 & E2 & E3 & Hperm).
+  destruct HD as (g2 & cons1 & Er & Hres & E1 & E2 & E3 & E5 & Hperm).
   rewrite Hres in *.
   apply (Hcont g2 cons1 r' Er).
   - eapply elem_rel_same; eauto.
@@ -484,7 +534,7 @@ Qed.
 Lemma elem_rel_init sg : wf_table c true sg = true -> elem_rel sg (create_group sg false) [] 0.
 Proof.
   intros Hwf. unfold elem_rel, create_group. cbn [mb_fp mb_subs].
-  split; [reflexivity|]. split; [reflexivity|]. split; [|split; reflexivity].
+  split; [reflexivity|]. split; [reflexivity|]. split; [|split; [split; reflexivity | congruence]].
   intros f. cbn. split; [discriminate|]. intros H. exfalso. exact (wf_elem_not_present _ _ _ Hwf H).
 Qed.
 Lemma mflat_create g : mflat (create_group g false) = [].
@@ -508,9 +558,12 @@ Proof.
   pose proof (IHE gm (create_group gm false) 0 off (t :: r) tail [] sf Hwf (elem_rel_init gm Hwf) Hok Hat Hsf0 Hnf0) as HE.
   destruct (sp_fields sf gm true [] (t :: r)) as [|seen' rest].
   { destruct HE as (e & He). rewrite He. eauto. }
-  destruct HE as (grp' & pos' & consumed & Ets & Hres & Hrel & Hcons & Hperm).
+  destruct HE as (grp' & pos' & consumed & Ets & Hres & Hrel & Hcons & Hperm & Hprog & Hsne).
   rewrite Hres in *. rewrite mflat_create in Hperm. cbn [app] in Hperm.
-  destruct Hrel as (Hst & Hsubs & Hseen & Hpos).
+  destruct Hrel as (Hst & Hsubs & Hseen & Hpos & Hflds).
+  assert (Hne : consumed <> []) by (apply Hprog; [reflexivity | discriminate]).
+  destruct (mb_fields grp') as [|fl0 flr] eqn:Hfl.
+  { exfalso. apply (Hflds (Hsne Hne)). reflexivity. }
   destruct (wf_table_unfold _ _ _ Hwf) as (Hnd & _ & _).
   pose proof (mand_rel gm (mb_fp grp') seen' Hnd Hst Hseen) as Hmand.
   destruct (mand_ok gm seen') eqn:Hmo.
@@ -524,8 +577,6 @@ Proof.
   cbn [stopw] in *. destruct (memN (k_tag t') seen') eqn:Hm.
   2:{ exists [grp'], consumed. split; [assumption|]. split; [reflexivity|].
       cbn [flat_map]. rewrite app_nil_r. assumption. }
-  assert (Hne : consumed <> []).
-  { intros E. rewrite (Hcons E) in Hm. discriminate. }
   assert (Hlen : (length (t' :: rest') < length (t :: r))%nat).
   { rewrite Ets, app_length. destruct consumed; [congruence | cbn [length]; lia]. }
   rewrite Ets in Hok, Hat. destruct (toks_ok_app _ _ _ Hok) as [_ Hok'].
@@ -558,8 +609,8 @@ Proof.
   destruct HG as (new & consumed & Ets & Hres & Hperm).
   rewrite Hres. exists (with_groups m1 (map_set f (els0 ++ new) (map_insert f [] (mb_groups m)))), consumed.
   split; [assumption|]. split; [reflexivity|].
-  rewrite fp_wg, pos_wg, subs_wg. unfold m1 at 1 2 3. rewrite fp_wg, pos_wg, subs_wg.
-  split; [reflexivity|]. split; [reflexivity|]. split; [reflexivity|].
+  rewrite fp_wg, pos_wg, subs_wg, fields_wg. unfold m1 at 1 2 3 4. rewrite fp_wg, pos_wg, subs_wg, fields_wg.
+  split; [reflexivity|]. split; [reflexivity|]. split; [reflexivity|]. split; [reflexivity|].
   rewrite !mflat_eq, pos_wg, groups_wg. unfold m1. rewrite pos_wg. rewrite <- app_assoc.
   apply Permutation_app_head.
   eapply perm_trans; [apply gflat_set; exact Hmf|]. rewrite gflat_insert.
@@ -733,7 +784,7 @@ Proof.
   pose proof (HDL m1 (k_tag t) sg' off1 r tail sf Hsub1 Hwf' Hokr Hat1 Hsf1 Hnf1) as HD.
   destruct (sp_elems sf sg' r) as [r'|].
   2:{ destruct HD as (e & He). rewrite He. eauto. }
-  destruct HD as (m2 & cons1 & Er & Hres & E1 & E2 & E3 & Hperm).
+  destruct HD as (m2 & cons1 & Er & Hres & E1 & E2 & E3 & _ & Hperm).
   rewrite Hres in *.
   apply (Hcont m2 cons1 r' Er).
   - eapply part_rel_same; eauto.
